@@ -31,6 +31,7 @@ class State:
         self.crash_tear = None
         self.crash_when = 'before'
         self.interrupted = None
+        self.fail_n = {}
         self.werr_limit = None
         self.werr_path = None
         self.werr_kind = None
@@ -381,7 +382,10 @@ def _generic_run(self, cspec, argvals):
         del ST.run_faults[slug]
         ST.fired.append(['runfault', slug, 'raise_before_return'])
         if kind == 'dir':
-            V.write_dir_spec({'partial.txt': 'partial'}, self.get_data_object().dir)
+            # the work of THIS failed attempt (numbered per location and process) - it is what has to be set aside
+            nfail = ST.fail_n[(slug, key)] = ST.fail_n.get((slug, key), 0) + 1
+            rec['partial'] = nfail
+            V.write_dir_spec({'partial.txt': f'partial {nfail}'}, self.get_data_object().dir)
         if kind == 'cont' and cont_done < cspec.get('cont_steps', 1):
             (data.dir / f'step_{cont_done}').write_text(str(cont_done))
         raise RunFault('injected: raise before return')
